@@ -162,6 +162,30 @@ def recovery_probe(sess, after, engine=False):
     return True
 
 
+def _bad_avs(salt):
+    """Availability dictionaries that do not match utilities 1, 2, 3: a key renamed, one key too many, one missing."""
+    return [{'1': ['var', 'av1'], '2': ['var', 'av2'], '4': ['var', 'av3']},
+            {'1': ['var', 'av1'], '2': ['var', 'av2'], '3': ['var', 'av3'], '4': ['var', 'av3']},
+            {'1': ['var', 'av1'], '2': ['var', 'av2']}][(salt // 2) % 3]
+
+
+def _nested_entry(salt, utils, nests, choice):
+    """The public functions that build a nested logit: each of them has to refuse invalid nests."""
+    import biogeme.expressions as ex
+    from biogeme import models
+    which = (salt // 2) % 5
+    if which == 0:
+        return models.lognested(utils, None, nests, choice)
+    if which == 1:
+        return ex.log(models.nested(utils, None, nests, choice))
+    if which == 2:
+        return models.lognested_mev_mu(utils, None, nests, choice, ex.Numeric(1.0))
+    if which == 3:
+        return ex.log(models.nested_mev_mu(utils, None, nests, choice, ex.Numeric(1.0)))
+    logg = models.get_mev_for_nested(utils, None, nests)
+    return logg[1] if isinstance(logg, dict) else logg
+
+
 def apply_fault(sess, a):
     ctx = sess.ctx
     kind, sel, salt, entry = a
@@ -246,8 +270,8 @@ def apply_fault(sess, a):
         ok, engine, e = expect_error(sess, f'choice value without a utility, via {entry}', lambda: run(plant(base, path, ast)), survey=survey)
     elif kind == 'bad_avail_keys':
         utils = {'1': ['beta', 'b0'], '2': ['var', 'c0'], '3': ['beta', 'b1']}
-        avs = {'1': ['var', 'av1'], '2': ['var', 'av2'], '4': ['var', 'av3']}
-        ok, engine, e = expect_error(sess, f'availability keys inconsistent with the utilities, via {entry}',
+        avs = _bad_avs(salt)
+        ok, engine, e = expect_error(sess, f'availability keys {sorted(avs)} inconsistent with the utilities {sorted(utils)}, via {entry}',
                                      lambda: run(plant(base, path, ['loglogit', utils, avs, ['var', 'ch']])), survey=survey)
     elif kind == 'empty_avail':
         utils = {'1': ['beta', 'b0'], '2': ['var', 'c0'], '3': ['beta', 'b1']}
@@ -256,7 +280,7 @@ def apply_fault(sess, a):
     elif kind == 'bad_avail_keys_kept':
         # the numbering is prepared first (prepare()), the faulty formula is then evaluated with prepare_ids=False
         utils = {'1': ['beta', 'b0'], '2': ['var', 'c0'], '3': ['beta', 'b1']}
-        avs = {'1': ['var', 'av1'], '2': ['var', 'av2'], '4': ['var', 'av3']}
+        avs = _bad_avs(salt)
 
         def f():
             fb = FaultBuilder(eb.beta_specs(), pool=sess.pool, share_elementary=False)
@@ -371,7 +395,7 @@ def apply_fault(sess, a):
             fb = ref.Builder(eb.beta_specs(), pool=sess.pool, share_elementary=False)
             utils = {1: fb.build(['beta', 'b0']), 2: fb.build(['*', ['beta', 'b1'], ['var', 'c0']]), 3: fb.build(['num', 0.0]),
                      4: fb.build(['beta', 'b2']), 5: fb.build(['var', 'c1'])}
-            lp = models.lognested(utils, None, nests, ex.Variable('ch'))
+            lp = _nested_entry(salt, utils, nests, ex.Variable('ch'))
             return lp.get_value_c(database=sess.dbs[dbi], aggregation=True, prepare_ids=True)
         ok, engine, e = expect_error(sess, 'nests_overlap_far', f)
     elif kind in ('nests_overlap', 'nests_outside'):
@@ -389,9 +413,46 @@ def apply_fault(sess, a):
                                                         OneNestForNestedLogit(mu2, [2, 3], 'b')))
             fb = ref.Builder(eb.beta_specs(), pool=sess.pool, share_elementary=False)
             utils = {1: fb.build(['beta', 'b0']), 2: fb.build(['*', ['beta', 'b1'], ['var', 'c0']]), 3: fb.build(['num', 0.0])}
-            lp = models.lognested(utils, None, nests, ex.Variable('ch'))
+            lp = _nested_entry(salt, utils, nests, ex.Variable('ch'))
             return lp.get_value_c(database=sess.dbs[dbi], aggregation=True, prepare_ids=True)
         ok, engine, e = expect_error(sess, f'{kind}', f)
+    elif kind == 'mc_catalog_switch':
+        # ONE formula whose validity depends on the alternative selected in a catalog: with 'fixed' the integrand of the
+        # Monte-Carlo operator holds no draws (invalid), with 'normal' it does (valid). Whatever was selected, audited
+        # or evaluated before, the selection in force decides: the invalid one is refused, the valid one gives the value
+        # of the same formula written by hand.
+        from biogeme.catalog import Catalog
+        import numpy as np_
+        beta_ = ex.Beta('mcb', 0.2, None, None, 0)
+        sigma_ = ex.Beta('mcs', 0.5, None, None, 0)
+
+        def model(term):
+            return ex.log(ex.MonteCarlo(ex.exp(-((ex.Variable('u') - beta_ * ex.Variable('p0') - term) ** 2))))
+        d_ = sess.dbs[dbi]
+        np_.random.seed(90267 + salt)
+        want_ = [float(v_) for v_ in model(sigma_ * ex.bioDraws('mc_eps', 'NORMAL')).get_value_c(
+            database=d_, number_of_draws=20, prepare_ids=True)]
+        term_ = Catalog.from_dict('mc_error_term', {'fixed': ex.Numeric(0), 'normal': sigma_ * ex.bioDraws('mc_eps', 'NORMAL')})
+        formula_ = model(term_)
+        order = ['fixed', 'normal', 'fixed'] if salt % 2 else ['normal', 'fixed', 'normal']
+        e = None
+        for step_, sel_ in enumerate(order):
+            term_.controlled_by.set_name(sel_)
+            if sel_ == 'fixed':
+                ok, engine, e = expect_error(
+                    sess, f'Monte-Carlo operator without draws (catalog on "fixed", step {step_} of {order})',
+                    lambda: formula_.get_value_c(database=d_, number_of_draws=20, prepare_ids=True))
+                if engine:
+                    break
+            else:
+                np_.random.seed(90267 + salt)
+                got_ = sess.lib(f'valid Monte-Carlo formula (catalog on "normal", step {step_} of {order})',
+                                lambda: [float(v_) for v_ in formula_.get_value_c(database=d_, number_of_draws=20,
+                                                                                  prepare_ids=True)], oracle='I12.2')
+                if got_ is not None:
+                    sess.cmp(f'valid Monte-Carlo formula after the catalog was switched (step {step_} of {order})',
+                             got_, want_, oracle='I12.2')
+        ctx.probe('validity switched by a catalog selection')
     elif kind in ('missing_read', 'missing_unread'):
         return missing(sess, kind, fi, dbi, salt, entry)
     else:
